@@ -95,7 +95,11 @@ def gen_string(rnd):
     elif kind < 0.67:
         parts = [bytes(rnd.randrange(256) for _ in range(rnd.randrange(1, 12)))]
         label = "random"
-    return b"".join(parts), label
+    out = b"".join(parts)
+    if rnd.random() < 0.12:
+        # JSON-like text: braces and percent signs in front of whatever follows (they mean something to str.format and %)
+        out = rnd.choice([b'{"k": {"n": 1}, "s": "', b"{0} {} %s }{ "]) + out
+    return out, label
 
 
 # ---------------------------------------------------------------- implementation side
@@ -233,9 +237,25 @@ def delivery_families(rep, model, tier, rnd):
         else:
             body, nfr = split_frames(payload, rnd, with_ctrl)
         before = E(2, b"pre") if rnd.random() < 0.3 else b""
-        stream = scen.HANDSHAKE + before + body + E(2, b"post")
+        hs = scen.HANDSHAKE
+        zextra = {}
+        if not as_close and rnd.random() < 0.15:
+            # the same text on a connection with permessage-deflate, compressed by an independent peer and fragmented
+            from . import ref7692
+            z = ref7692.Peer().compress(payload)
+            nfr = rnd.choice([1, 2, 3, 5])
+            pts = [0] + sorted(rnd.randrange(0, len(z) + 1) for _ in range(nfr - 1)) + [len(z)]
+            body = b""
+            for j in range(nfr):
+                body += E(1 if j == 0 else 0, z[pts[j]:pts[j + 1]], fin=1 if j == nfr - 1 else 0, rsv=4 if j == 0 else 0)
+                if j < nfr - 1 and with_ctrl and rnd.random() < 0.6:
+                    body += E(rnd.choice([9, 10]), b"c")
+            hs = ref6455.handshake_response(scen.ACCEPT, extra=b"Sec-WebSocket-Extensions: permessage-deflate\r\n")
+            zextra = dict(ztape=[payload], ws_kwargs=dict(compress=True))
+            label = label + "+deflate"
+        stream = hs + before + body + E(2, b"post")
         chunks = scen.chunkings(rnd, stream, rnd.choice(["one", "random", "small", "bytes"]))
-        sc = dict(cfg=simnet.default_cfg(), steps=scen.steps_from_chunks(chunks), keys=scen.keys(rnd, 8), key16=scen.KEY16)
+        sc = dict(cfg=simnet.default_cfg(), steps=scen.steps_from_chunks(chunks), keys=scen.keys(rnd, 8), key16=scen.KEY16, **zextra)
         try:
             payload.decode("utf-8")
             sc["_valid"] = True
